@@ -73,9 +73,34 @@ def u_connection_made(ctx, index):
   ip.ext[('method', 'getPeerName')] = None
   del ip.ext[('method', 'getPeerName')]
   recv.fields['getPeerName'] = Builtin('getPeerName', lambda ip2, a, k: 'peer')
+  # rely (cache daemon): between two atomic steps of connectionMade the writer thread may drain
+  # the cache below the watermark and fire cacheSpaceAvailable -> resumeReceivingMetrics, which
+  # clears the flag and calls every handler registered at that moment
+  st = ip.env(P).lookup('state')
+  st.shared = True
+  fired = []
+
+  def rely(ip2, obj):
+    if fired or ip2.ctx.choose(2, 'writer fires resume') == 0:
+      return
+    fired.append(True)
+    st.attrs['metricReceiversPaused'] = z3.BoolVal(False)
+    for hnd in list(ev.attrs['resumeReceivingMetrics'].handlers):
+      ip2.call(hnd, [])
+  ctx.hooks['yield_point'] = rely
   ip.run(MR + '.connectionMade', [], self_obj=recv)
+  ctx.hooks.pop('yield_point', None)
   ctx.cover('connectionMade/returns')
   n_pause = len(log.of('transport.pauseProducing'))
+  n_resume = len(log.of('transport.resumeProducing'))
+  final_flag = st.attrs['metricReceiversPaused']
+  final_flag = final_flag if z3.is_expr(final_flag) else z3.BoolVal(bool(final_flag))
+  # I_bp_recv: a connection whose transport is paused is paused because receivers are paused
+  # (so the next resume event, for which it is registered, will resume it)
+  ctx.check('C09/connectionMade/stays_in_step_with_the_pause_flag',
+            z3.Implies(z3.BoolVal(n_pause > n_resume), final_flag))
+  if fired:
+    return
   ctx.check('C09/connectionMade/paused_iff_receivers_paused',
             z3.And(z3.Implies(paused, z3.BoolVal(n_pause == 1)), z3.Implies(z3.Not(paused), z3.BoolVal(n_pause == 0))))
   reg_p = any(getattr(h, 'obj', None) is recv for h in ev.attrs['pauseReceivingMetrics'].handlers)
